@@ -2,7 +2,7 @@ SPECIFICATION Spec
 CONSTANT N = 5
 CONSTANT Und = FALSE
 CONSTANT Gen = FALSE
-CONSTANT KMax = 99
+CONSTANT KMax = 8
 CHECK_DEADLOCK FALSE
 INVARIANT TypeOK
 INVARIANT PrefixInv
